@@ -30,6 +30,7 @@ const (
 	cvFunc  // compiled function record
 	cvSlice // local slice with tracked length
 	cvNil
+	cvTuple // the results of an inlined helper with several results
 )
 
 type cVal struct {
@@ -41,6 +42,7 @@ type cVal struct {
 	bottom bool // cvMark: recorded at an unreachable point
 	lit    *ast.FuncLit
 	cenv   *cEnv
+	tup    []cVal
 }
 
 type cEnv struct {
@@ -142,6 +144,7 @@ var compAssumptions = []string{
 const nilVal = -9999
 
 type cWalker struct {
+	inlineDepth int
 	m       *compModel
 	method  string
 	recv    types.Object
@@ -162,16 +165,59 @@ func buildCompModel(c *Ctx) *compModel {
 	m.info = m.pkg.TypesInfo
 	c.memo["compmodel"] = m
 	m.specs = map[string]Lin{"expr": linC(1), "index": linC(1), "stmt": linC(0), "stmts": linC(0)}
+	// the primitive layer: the emitters and jump helpers modelled by name (their own shape is checked by R-JUMP /
+	// R-LOOPSTACK), the pure helpers, and every method whose only callers are in that layer (a helper extracted
+	// from a primitive is part of the primitive: it is interpreted where R-JUMP enters it)
+	prim := map[string]bool{}
+	for _, n := range []string{"add", "finish", "jumpForward", "patchForward", "labelBackward", "jumpBackward", "patchBreaks", "patchContinues",
+		"numIndex", "strIndex", "regexIndex", "scalarInfo", "arrayInfo"} {
+		prim[n] = true
+	}
+	callers := map[string]map[string]bool{}
+	for _, fd := range c.allFuncDecls("internal/compiler") {
+		if fd.Recv == nil || recvTypeName(fd.Recv.List[0].Type) != "compiler" || fd.Body == nil {
+			continue
+		}
+		from := fd.Name.Name
+		ast.Inspect(fd.Body, func(n ast.Node) bool {
+			if call, ok := n.(*ast.CallExpr); ok {
+				if f := calleeOf(m.info, call); f != nil && f.Pkg() == m.pkg.Types {
+					if sig, ok := f.Type().(*types.Signature); ok && sig.Recv() != nil {
+						if callers[f.Name()] == nil {
+							callers[f.Name()] = map[string]bool{}
+						}
+						callers[f.Name()][from] = true
+					}
+				}
+			}
+			return true
+		})
+	}
+	for changed := true; changed; {
+		changed = false
+		for callee, from := range callers {
+			if prim[callee] || len(from) == 0 {
+				continue
+			}
+			all := true
+			for f := range from {
+				if !prim[f] || f == "finish" {
+					all = false
+				}
+			}
+			if all {
+				prim[callee] = true
+				changed = true
+			}
+		}
+	}
 	// verify each method of type compiler that emits code
 	for _, fd := range c.allFuncDecls("internal/compiler") {
 		if fd.Recv == nil || recvTypeName(fd.Recv.List[0].Type) != "compiler" || fd.Body == nil {
 			continue
 		}
-		name := fd.Name.Name
-		switch name {
-		case "add", "finish", "jumpForward", "patchForward", "labelBackward", "jumpBackward", "patchBreaks", "patchContinues",
-			"numIndex", "strIndex", "regexIndex", "scalarInfo", "arrayInfo":
-			continue // primitives (their own shape is checked by R-JUMP) and pure helpers
+		if prim[fd.Name.Name] {
+			continue
 		}
 		m.verifyMethod(fd)
 	}
@@ -486,6 +532,30 @@ func (w *cWalker) stmt(s ast.Stmt, st *cState) []*cState {
 			st.returned = true
 			return []*cState{st}
 		}
+		if len(s.Results) > 1 {
+			// several results: evaluated left to right into a tuple
+			type part struct {
+				st *cState
+				vs []cVal
+			}
+			parts := []part{{st, nil}}
+			for _, re := range s.Results {
+				var next []part
+				for _, pt := range parts {
+					for _, r := range w.eval(re, pt.st) {
+						next = append(next, part{r.st, append(append([]cVal(nil), pt.vs...), r.v)})
+					}
+				}
+				parts = next
+			}
+			for _, pt := range parts {
+				v := cVal{k: cvTuple, tup: pt.vs}
+				pt.st.retVal = &v
+				pt.st.returned = true
+				out = append(out, pt.st)
+			}
+			return out
+		}
 		for _, x := range cur {
 			for _, r := range w.eval(s.Results[0], x) {
 				v := r.v
@@ -711,6 +781,14 @@ func (w *cWalker) litOf(a cVal, rel string, b cVal) (Lit, bool) {
 	if at, ok := atomOf(a); ok {
 		if cb, ok := constOf(b); ok {
 			return Lit{Atom: at, Rel: rel, Val: cb}, true
+		}
+	}
+	// atom + constant compared with a constant: move the constant over
+	if a.k == cvLin && a.lin.C != 0 && len(a.lin.T) == 1 {
+		for x, k := range a.lin.T {
+			if cb, ok := constOf(b); ok && k == 1 {
+				return Lit{Atom: x, Rel: rel, Val: cb - int64(a.lin.C)}, true
+			}
 		}
 	}
 	if at, ok := atomOf(b); ok {
@@ -1300,6 +1378,15 @@ func (w *cWalker) assign(s *ast.AssignStmt, st *cState) []*cState {
 		// a, b := call()  (scalarInfo/arrayInfo/LookupVar ...)
 		var out []*cState
 		for _, r := range w.eval(s.Rhs[0], st) {
+			if r.v.k == cvTuple && len(r.v.tup) == len(s.Lhs) {
+				for i, l := range s.Lhs {
+					if id, ok := l.(*ast.Ident); ok && id.Name != "_" {
+						r.st.env.set(w.objOf(id), r.v.tup[i])
+					}
+				}
+				out = append(out, r.st)
+				continue
+			}
 			for i, l := range s.Lhs {
 				if id, ok := l.(*ast.Ident); ok && id.Name != "_" {
 					nm := id.Name
@@ -1738,6 +1825,16 @@ func (w *cWalker) call(x *ast.CallExpr, st *cState) []cRes {
 				out = append(out, cRes{a.st, cVal{k: cvOpaque, id: "incrAmount"}})
 			}
 			return out
+		}
+		// any other plain function of the package (no receiver, so it cannot emit code): evaluated in place,
+		// like a closure, so that an opcode chosen by a helper is still a known constant
+		if fo, ok := info.Uses[id].(*types.Func); ok && fo.Pkg() == w.m.pkg.Types && w.inlineDepth < 3 {
+			if hd := w.m.c.funcDecl("internal/compiler", fo.Name()); hd != nil && hd.Recv == nil && hd.Body != nil {
+				w.inlineDepth++
+				res := w.callClosure(cVal{k: cvClosure, lit: &ast.FuncLit{Type: hd.Type, Body: hd.Body}}, x, st)
+				w.inlineDepth--
+				return res
+			}
 		}
 	}
 	se, isSel := x.Fun.(*ast.SelectorExpr)
